@@ -26,6 +26,7 @@ RULE = ('histories of 5-40 calls on one SqParser (plain and with a dict parse ca
 RULE += ' A sample of the calls is also replayed in a fresh process (state at module level); names templates include one that shadows builtins and a read-only mapping; corpora contain equal-but-differently-spelled literals whose text is exposed.'
 RULE += ' Sweep: every text of the corpus, twice, on one long-lived parser per worker process, each outcome compared with the outcome of the same call in a fresh process (a zygote forks a child per distinct call; only the child imports the package; outcomes are shared between workers); the corpus includes texts that raise decimal signals (underflow) and print equal numbers written differently.'
 RULE += ' Template rotation: texts of the corpus evaluated under all six names templates in a row (random order) on the long-lived plain and caching parsers, each outcome against a history-free parser.'
+RULE += ' Histories also contain eval(text) calls with the names argument omitted, and the second pass of the sweep evaluates every text that way.'
 RULE += ' Names templates carry host containers with a copy protocol of their own (a frozen Box is its own deep copy, a mutable one is copied).'
 ASSUMPTIONS = ['visible arguments = source text, budget, and the contents of names with callables treated as opaque (equal if both are callables)',
                'a partially consumed list_names generator is abandoned, never resumed after another call',
@@ -41,7 +42,8 @@ VALID = ['x = 5\nx', 'len = 3\nlen', 'y = [1]\ny', 'sum([1, 2])', 'zz = 1',  '1 
          'x = 1\n\n\ny = x\ny', 'map([1, 2, 3], v => v + 1)', '"s" + 1.50', 'n = 3\nn *= 2\nn', 'd = {}\nd["k"] = 1\nd', 'sorted([3, 1, 2])\n', 'not True or 1 in [1]', '1 if 2 > 1 else 3',
          'x.upper() if False else hs', '0.1 + 0.2 == 0.3', '1 / 3', 'round(2.675, 2)', 'cnt += 1\ncnt', 'acc | push(len(acc))\nacc', 'g = n => n + cnt\ng(1)', 'g(2)', 'f(1)', 'f(2)',
          'f = n => [n, n + 1, n + 2] | map(v => v * 2)', 'len(x)', 'str(1) + "!"', 'max(1, 2)', '[len("ab"), max(3, 4)]', 'x | len', '2 ** 0.5', '(1 / 3) * 3',
-         '"price: " + 2.50', 'x = 2.5 * 4\nx', 'yf = fb\nlen(yf)', 'ym = mb\npush(ym, 99)\nmb', 'ym2 = [mb, fb]\npush(ym2[0], 1)\n[mb, ym2]', 'yf += fb\nyf' if False else 'zf = [fb]\nzf', '10 ** -2000000', '2.50 ** 1', '1.10 ** 2', 'pretty(2500000)', 'pretty(2500000.0)', 'pretty(2500000.00)', 'pretty(7)', 'pretty(7.00)',
+         '"price: " + 2.50', 'x = 2.5 * 4\nx', '{2: "x"} | keys', '{0.5 * 4: "x"} | keys', '{7.5: 1} | keys', '{7.50: 1} | keys', 'q = {}\nq[True] = 1\nq', 'q = {}\nq[1] = 1\nq', 'q = {}\nq[1.0] = 2\nq',
+         'total = 41\ntotal + 1', 'total + 1', 'list = 5\nlist', '[1, 2]', 'max = 10\nmax', 'yf = fb\nlen(yf)', 'ym = mb\npush(ym, 99)\nmb', 'ym2 = [mb, fb]\npush(ym2[0], 1)\n[mb, ym2]', 'yf += fb\nyf' if False else 'zf = [fb]\nzf', '10 ** -2000000', '2.50 ** 1', '1.10 ** 2', 'pretty(2500000)', 'pretty(2500000.0)', 'pretty(2500000.00)', 'pretty(7)', 'pretty(7.00)',
          'pretty([1, 1.0, 1.00])', 'pretty({"a": 2.50})', '[round(2.50, 1), round(2.5, 1)]', 'str(7.00) + str(7)', '0.000000000000000000000000000001 * 0.000000000000000000000000000001',
          'match_all("a1b22", r"\\d+")', 'match("abc", "B", "i")', 'sorted([2.0, 2, 1.50])', 'str(1.0)', '{1: "a", 1.0: "b"} | keys', '"n=" + 1', '[2.5, 2.50, 1, 1.0, 007, 7] | map(v => str(v))', 'str(10.0) + str(10)']
 LEXBAD = ['1 + $', 'x = 1\ny = ?', '"unterminated', 'a \\ b', 'f(1,\n 2, ` )', '[1, 2\r3]', 'x = 1 # fine\ny = ~x']
@@ -123,7 +125,10 @@ def do_call(P, entry, src, names, budget, k=None):
         if entry == 'parse':
             return ('ok', str(treeconv.norm(treeconv.conv(P.parse(src)))))
         if entry == 'eval':
-            v = P.eval(src, names, None, budget) if budget is not None else P.eval(src, names)
+            if names is None:
+                v = P.eval(src, max_ops_evaluated=budget) if budget is not None else P.eval(src)         # the names argument omitted
+            else:
+                v = P.eval(src, names, None, budget) if budget is not None else P.eval(src, names)
             return ('ok', norm_value(v), norm_value(names))
         if entry == 'list_names':
             return ('ok', list(P.list_names(src)))
@@ -276,7 +281,7 @@ def gen_history(r):
         entry = r.choice(['parse', 'eval', 'eval', 'list_names', 'list_names_partial'])
         if kind == 'names-text' and entry in ('parse', 'eval') and r.random() < 0.7:
             entry = r.choice(['list_names', 'list_names_partial'])
-        names_mode = r.choice(['fresh0', 'fresh1', 'fresh2', 'fresh3', 'fresh4', 'fresh5', 'persistA', 'persistA', 'persistB'])
+        names_mode = r.choice(['fresh0', 'fresh1', 'fresh2', 'fresh3', 'fresh4', 'fresh5', 'persistA', 'persistA', 'persistB', 'none', 'none'])
         budget = r.choice([None, None, 30, 1000])
         calls.append((kind, entry, src, names_mode, budget, r.randint(0, 3)))
     return calls
@@ -320,13 +325,15 @@ def run_sweep(case, ctx):
     for n, (kind, src) in enumerate(first + second):
         entry = NATURAL.get(kind, 'parse')
         P = ctx.sweepP[n % 2]
-        names = fresh_names(0) if entry == 'eval' else None
+        # first pass: a fresh names mapping per call; second pass: eval(text) with the names argument omitted (the call's variables die with the call)
+        omitted = entry == 'eval' and n >= len(first)
+        names = fresh_names(0) if (entry == 'eval' and not omitted) else None
         ctx.cur = {'first': None, 'foreign': 0}
         out = do_call(P, entry, src, names, None, 0)
         ctx.evaluations += 1
         if out == ('recursion',):
             continue
-        fresh = fresh_process_outcome(ctx, entry, src, 0, None, 0, spend='always')
+        fresh = fresh_process_outcome(ctx, entry, src, -1 if omitted else 0, None, 0, spend='always')
         if fresh is None:
             continue
         ctx.count('outcomes_compared_with_a_fresh_process')
@@ -334,7 +341,7 @@ def run_sweep(case, ctx):
         ctx.nontriv('sweep|%s|%s|%d' % (src, entry, n >= len(first)))
         if fresh != out and fresh != ('recursion',):
             ctx.violation('a call gives a different outcome in a fresh process (state kept outside the parser object)', ('sweep', case[1]),
-                          detail={'call': [entry, src, 'fresh0', None, 0], 'position_in_sweep': n, 'with_history': repr(out)[:300], 'fresh_process': repr(fresh)[:300],
+                          detail={'call': [entry, src, 'names omitted' if omitted else 'fresh0', None, 0], 'position_in_sweep': n, 'with_history': repr(out)[:300], 'fresh_process': repr(fresh)[:300],
                                   'earlier_in_this_sweep': [x[1][:30] for x in (first + second)[max(0, n - 5):n]]})
             return
 
@@ -387,15 +394,17 @@ def run_case(case, ctx):
     prev_kind = 'start'
     trail = []
     for (kind, entry, src, names_mode, budget, k) in calls:
-        names = persist[names_mode] if names_mode.startswith('persist') else fresh_names(int(names_mode[-1]))
+        names = persist[names_mode] if names_mode.startswith('persist') else None if names_mode == 'none' else fresh_names(int(names_mode[-1]))
         if entry != 'eval':
             names = None
+        no_names = entry == 'eval' and names is None          # eval(text) with the names argument omitted: the call's variables live and die with the call
         key = key_of(entry, src, names, budget, k)
         pre_names = None
-        if entry == 'eval':
+        read_only = False
+        if entry == 'eval' and not no_names:
             pre_names = {kk: (vv if callable(vv) else copy.deepcopy(vv)) for kk, vv in names.items()}
             read_only = type(names).__name__ == 'mappingproxy'
-        stale = entry == 'eval' and any(callable(v) and id(v) in ctx.M1.lambdas for v in names.values())
+        stale = entry == 'eval' and not no_names and any(callable(v) and id(v) in ctx.M1.lambdas for v in names.values())
         # ---- the call under history
         M7.begin()
         ctx.cur = {'first': None, 'foreign': 0}
@@ -444,7 +453,7 @@ def run_case(case, ctx):
                 F = copy.deepcopy(ctx.pristine)      # a deep copy of a parser that has never served a call
                 ctx.count('history_free_members_on_deep_copies_of_an_unused_parser')
             fn = None
-            if entry == 'eval':
+            if entry == 'eval' and not no_names:
                 fn = {kk: (vv if callable(vv) else copy.deepcopy(vv)) for kk, vv in pre_names.items()}
                 if read_only:
                     import types
@@ -462,7 +471,7 @@ def run_case(case, ctx):
         # a sample of the calls is also replayed in a FRESH PROCESS: state kept at module level (memos, caches, contexts) is shared by every
         # parser of this process, the freshly constructed one included
         if (names is None or names_mode.startswith('fresh')) and out != ('recursion',):
-            fresh = fresh_process_outcome(ctx, entry, src, int(names_mode[-1]) if (names is not None and names_mode.startswith('fresh')) else 0, budget, k,
+            fresh = fresh_process_outcome(ctx, entry, src, int(names_mode[-1]) if (names is not None and names_mode.startswith('fresh')) else (-1 if no_names else 0), budget, k,
                                           spend=kind in ('ok', 'runtime', 'names-text') or ctx.rnd.random() < 0.3)
             if fresh is not None:
                 ctx.count('outcomes_compared_with_a_fresh_process')
